@@ -55,8 +55,8 @@ type colInfo struct {
 
 type recEvent struct {
 	u        event.Update
-	readable bool   // the announced cid could be read from the blockstore when the event was received
-	same     bool   // and the bytes read equal the announced block
+	readable bool // the announced cid could be read from the blockstore when the event was received
+	same     bool // and the bytes read equal the announced block
 	readErr  string
 }
 
